@@ -39,7 +39,7 @@ func TestCheck(t *testing.T) {
 		}
 	}()
 	ctx := context.Background()
-	n := int64(cfg.Pick(100, 1200))
+	n := int64(cfg.Pick(100, 400))
 	rep.Cases(n, func(idx int64, rng *mon.Rand) {
 		if idx%6 == 5 {
 			chainCase(ctx, rep, rng, cfg)
@@ -134,36 +134,13 @@ func graphCase(ctx context.Context, rep *mon.Reporter, rng *mon.Rand, cfg mon.Co
 	}
 }
 
-// dataAncestors: top-level body nodes whose output flows (over data edges that delivered) into END.
+// dataAncestors: top-level body nodes whose output provably flows into the value delivered to END
+// (data provenance computed by the reference; nested graphs are provenance barriers, because whether
+// they use their input is not tracked).
 func dataAncestors(spec *gspec.GraphSpec, ref *gspec.RefResult) []string {
-	in := map[string][]string{}
-	for _, e := range spec.Edges {
-		if !e.NoData {
-			in[e.To] = append(in[e.To], e.From)
-		}
-	}
-	if spec.Mode != gspec.Workflow {
-		for _, b := range spec.Branches {
-			for _, t := range ref.Branch[b.ID] {
-				in[t] = append(in[t], b.From)
-			}
-		}
-	}
-	seen := map[string]bool{}
-	var walk func(n string)
-	walk = func(n string) {
-		for _, p := range in[n] {
-			if p == gspec.START || seen[p] || !ref.Ran[p] {
-				continue
-			}
-			seen[p] = true
-			walk(p)
-		}
-	}
-	walk(gspec.END)
 	var out []string
 	for _, n := range spec.Nodes {
-		if seen[n.Key] && n.Kind != gspec.Passthrough && n.Kind != gspec.Sub && n.Kind != gspec.Rename {
+		if ref.Contrib[n.Key] && n.Kind != gspec.Passthrough && n.Kind != gspec.Sub && n.Kind != gspec.Rename {
 			out = append(out, n.Key)
 		}
 	}
